@@ -1307,6 +1307,10 @@ func (s *Sim) probes() {
 			s.count("probe.already-reverted")
 		case "machine:insufficient-funds":
 			s.count("probe.insufficient-funds")
+		case "machine:other":
+			if o.Err != nil && strings.Contains(o.Err.Error(), "override") {
+				s.count("probe.refused-after-run-metadata-override")
+			}
 		}
 	}
 }
